@@ -39,11 +39,11 @@ fn source(state: &[usize]) -> String {
     }
     s
 }
-fn setup(root: &Path, state: &[usize]) {
+fn setup(root: &Path, state: &[usize], no_babel: bool) {
     let _ = fs::remove_dir_all(root);
     fs::create_dir_all(root.join("src")).unwrap();
     fs::write(root.join("schema.graphql"), "type Query {\n  hello: String\n}\n").unwrap();
-    fs::write(root.join("isograph.config.json"), "{ \"project_root\": \"./src\", \"schema\": \"./schema.graphql\" }").unwrap();
+    fs::write(root.join("isograph.config.json"), if no_babel { "{ \"project_root\": \"./src\", \"schema\": \"./schema.graphql\", \"options\": { \"no_babel_transform\": true } }" } else { "{ \"project_root\": \"./src\", \"schema\": \"./schema.graphql\" }" }).unwrap();
     fs::write(root.join("src/a.ts"), source(state)).unwrap();
 }
 fn overloads(iso_ts: &str) -> Vec<String> {
@@ -64,10 +64,12 @@ fn main() {
     let root = PathBuf::from(std::env::args().nth(1).unwrap_or("p_iso_overload".into()));
     let root = if root.is_absolute() { root } else { std::env::current_dir().unwrap().join(root) };
     let mut n = 0usize;
-    for code in 0..81usize {
-        let mut c = code;
+    // every project in both modes of the generated file (options.no_babel_transform)
+    for code in 0..162usize {
+        let no_babel = code >= 81;
+        let mut c = code % 81;
         let state: Vec<usize> = (0..4).map(|_| { let d = c % 3; c /= 3; d }).collect();
-        setup(&root, &state);
+        setup(&root, &state, no_babel);
         let cwd: CurrentWorkingDirectory = root.to_str().unwrap().intern().into();
         let config = create_config(&root.join("isograph.config.json"), cwd);
         let mut st = CompilerState::<P>::new(config, cwd).map_err(|e| e.0).expect("state");
@@ -83,12 +85,12 @@ fn main() {
             match pats.iter().find(|p| stripped.starts_with(p.as_str())) {
                 Some(p) if *p == header => {}
                 other => {
-                    println!("DIFFERENT: project {state:?} (A AB ABC B; 0 absent 1 field 2 @component): the literal `{header} ..` resolves to the overload {other:?} (overload order: {pats:?})");
+                    println!("DIFFERENT: project {state:?} (A AB ABC B; 0 absent 1 field 2 @component; no_babel_transform = {no_babel}): the literal `{header} ..` resolves to the overload {other:?} (overload order: {pats:?})");
                     std::process::exit(1);
                 }
             }
         }
     }
     let _ = fs::remove_dir_all(&root);
-    println!("projects=81 literals={n}: every literal resolves to the overload of its own declaration");
+    println!("projects=81 x 2 modes literals={n}: every literal resolves to the overload of its own declaration");
 }
